@@ -7,8 +7,9 @@
 -/
 import WaveletsVerif.Properties.C05U
 import WaveletsVerif.Properties.C07M
+import WaveletsVerif.Properties.C05V
 namespace WV.C05W
-open Finset WV WV.C05D WV.C05P WV.C05U WV.C07M
+open Finset WV WV.C05D WV.C05P WV.C05U WV.C07M WV.C05V
 variable {R : Type} [CommRing R]
 
 omit [CommRing R] in
@@ -142,6 +143,93 @@ theorem AFB1D_per_adjoint_channels (h0 h1 : List R) (hL : 2 ≤ h0.length) (hLe 
       ∀ c < xs.length, dotN ((N + N % 2) / 2) (los.getD c []) (g0s.getD c []) + dotN ((N + N % 2) / 2) (his.getD c []) (g1s.getD c [])
         = dotN N (xs.getD c []) (dxs.getD c []) :=
   AFB1D_adjoint_channels .periodization h0.reverse h1.reverse _ _ (levelAdj_per h0 h1 hL hLe hh1) N ⟨hN, hfit⟩ xs g0s g1s hl0 hl1 hx hg
+
+
+/-! ### the synthesis Function on `C` channels -/
+
+/-- **`SFB1D.forward` acts channel by channel** -/
+theorem SFB1D_forward_channels (m : Mode) (g0 g1 : List R) (los his : List (List R)) (S : List R → List R → List R)
+    (hlen : his.length = los.length)
+    (h : ∀ c < los.length, sfb1dCh m g0 g1 (los.getD c []) (his.getD c []) = some (S (los.getD c []) (his.getD c []))) :
+    SFB1D_forward m g0 g1 los his = some (tab los.length fun c => S (los.getD c []) (his.getD c [])) := by
+  unfold SFB1D_forward
+  rw [sfb1dT_total .W m g0 g1 (los.map fun ch => [ch]) (his.map fun ch => [ch]) (fun a b => [S (a.getD 0 []) (b.getD 0 [])])
+    (by simp [hlen])
+    (by
+      intro c hc
+      have hc' : c < los.length := by simpa using hc
+      rw [getD_map_single los c hc', getD_map_single his c (by omega)]
+      have e := h c hc'
+      simp only [List.getD_eq_getElem?_getD] at e
+      simp [sfb1dImg, List.range, List.range.loop, e])]
+  simp only [Option.bind_eq_bind, Option.bind_some, List.length_map]
+  rw [C07.map_tab]
+  congr 1
+  apply tab_ext rfl
+  intro c hc
+  rw [getD_map_single los c hc, getD_map_single his c (by omega)]
+  rfl
+
+/-- **`SFB1D.backward` is the adjoint of `SFB1D.forward` on every number of channels** whenever one level is adjoint on one
+channel (`C05V.LevelAdjS`) -/
+theorem SFB1D_adjoint_channels (m : Mode) (g0 g1 : List R) (Fit : Nat → Prop) (Out : Nat → Nat) (hA : LevelAdjS m g0 g1 Fit Out)
+    (K : Nat) (hK : Fit K) (los his dys : List (List R)) (hl0 : his.length = los.length) (hl1 : dys.length = los.length)
+    (hb : ∀ c < los.length, (los.getD c []).length = K ∧ (his.getD c []).length = K)
+    (hd : ∀ c < los.length, (dys.getD c []).length = Out K) :
+    ∃ ys dlos dhis, SFB1D_forward m g0 g1 los his = some ys ∧ SFB1D_backward m g0 g1 dys = some (dlos, dhis) ∧
+      ∀ c < los.length, dotN (Out K) (dys.getD c []) (ys.getD c [])
+        = dotN K (dlos.getD c []) (los.getD c []) + dotN K (dhis.getD c []) (his.getD c []) := by
+  classical
+  let S : List R → List R → List R := fun a b => (sfb1dCh m g0 g1 a b).getD []
+  let lo : List R → List R := fun x => (afb1dOne m g0 x).getD []
+  let hi : List R → List R := fun x => (afb1dOne m g1 x).getD []
+  have hall : ∀ c < los.length, ∃ y dlo dhi, sfb1dCh m g0 g1 (los.getD c []) (his.getD c []) = some y ∧
+      afb1dOne m g0 (dys.getD c []) = some dlo ∧ afb1dOne m g1 (dys.getD c []) = some dhi ∧
+      dotN (Out K) (dys.getD c []) y = dotN K dlo (los.getD c []) + dotN K dhi (his.getD c []) := by
+    intro c hc
+    obtain ⟨y, dlo, dhi, e1, e2, e3, _, _, _, hid⟩ := hA (los.getD c []) (his.getD c []) (dys.getD c []) (by rw [(hb c hc).1]; exact hK)
+      (by rw [(hb c hc).1, (hb c hc).2]) (by rw [(hb c hc).1]; exact hd c hc)
+    rw [(hb c hc).1] at hid
+    exact ⟨y, dlo, dhi, e1, e2, e3, hid⟩
+  have hS : ∀ c < los.length, sfb1dCh m g0 g1 (los.getD c []) (his.getD c []) = some (S (los.getD c []) (his.getD c [])) := by
+    intro c hc
+    obtain ⟨y, _, _, e1, _⟩ := hall c hc
+    simp only [S, e1, Option.getD_some]
+  have hB : ∀ c < dys.length, afb1dOne m g0 (dys.getD c []) = some (lo (dys.getD c [])) ∧
+      afb1dOne m g1 (dys.getD c []) = some (hi (dys.getD c [])) := by
+    intro c hc
+    obtain ⟨_, dlo, dhi, _, e2, e3, _⟩ := hall c (by omega)
+    exact ⟨by simp only [lo, e2, Option.getD_some], by simp only [hi, e3, Option.getD_some]⟩
+  refine ⟨_, _, _, SFB1D_forward_channels m g0 g1 los his S hl0 hS,
+    by rw [SFB1D_backward_eq]; exact AFB1D_forward_channels m g0 g1 dys lo hi hB, ?_⟩
+  intro c hc
+  rw [getD_tab, getD_tab, getD_tab, if_pos hc, if_pos (by omega), if_pos (by omega)]
+  obtain ⟨y, dlo, dhi, e1, e2, e3, hid⟩ := hall c hc
+  have ey : S (los.getD c []) (his.getD c []) = y := by simp only [S, e1, Option.getD_some]
+  have ea : lo (dys.getD c []) = dlo := by simp only [lo, e2, Option.getD_some]
+  have eb : hi (dys.getD c []) = dhi := by simp only [hi, e3, Option.getD_some]
+  rw [ey, ea, eb]
+  exact hid
+
+/-- mode zero, every channel count -/
+theorem SFB1D_zero_adjoint_channels (g0 g1 : List R) (hL : 2 ≤ g0.length) (hg : g1.length = g0.length) (K : Nat) (hK : 1 ≤ K)
+    (hfit : g0.length ≤ 2 * K + 1) (los his dys : List (List R)) (hl0 : his.length = los.length) (hl1 : dys.length = los.length)
+    (hb : ∀ c < los.length, (los.getD c []).length = K ∧ (his.getD c []).length = K)
+    (hd : ∀ c < los.length, (dys.getD c []).length = 2 * K + 2 - g0.length) :
+    ∃ ys dlos dhis, SFB1D_forward .zero g0 g1 los his = some ys ∧ SFB1D_backward .zero g0 g1 dys = some (dlos, dhis) ∧
+      ∀ c < los.length, dotN (2 * K + 2 - g0.length) (dys.getD c []) (ys.getD c [])
+        = dotN K (dlos.getD c []) (los.getD c []) + dotN K (dhis.getD c []) (his.getD c []) :=
+  SFB1D_adjoint_channels .zero g0 g1 _ _ (levelAdjS_zero g0 g1 hL hg) K ⟨hK, hfit⟩ los his dys hl0 hl1 hb hd
+
+/-- periodization, every channel count, any even-length synthesis filters with `L ≤ 2K` -/
+theorem SFB1D_per_adjoint_channels (g0 g1 : List R) (hL : 2 ≤ g0.length) (hLe : g0.length % 2 = 0) (hg : g1.length = g0.length)
+    (K : Nat) (hfit : g0.length ≤ 2 * K) (los his dys : List (List R)) (hl0 : his.length = los.length) (hl1 : dys.length = los.length)
+    (hb : ∀ c < los.length, (los.getD c []).length = K ∧ (his.getD c []).length = K)
+    (hd : ∀ c < los.length, (dys.getD c []).length = 2 * K) :
+    ∃ ys dlos dhis, SFB1D_forward .periodization g0 g1 los his = some ys ∧ SFB1D_backward .periodization g0 g1 dys = some (dlos, dhis) ∧
+      ∀ c < los.length, dotN (2 * K) (dys.getD c []) (ys.getD c [])
+        = dotN K (dlos.getD c []) (los.getD c []) + dotN K (dhis.getD c []) (his.getD c []) :=
+  SFB1D_adjoint_channels .periodization g0 g1 _ _ (levelAdjS_per g0 g1 hL hLe hg) K hfit los his dys hl0 hl1 hb hd
 
 /-- the per-channel hypotheses are satisfiable: a three-channel stack of length-5 signals -/
 example : ∀ c < ([[1, 2, 3, 4, 5], [0, 0, 1, 0, 0], [5, 4, 3, 2, 1]] : List (List Int)).length,
